@@ -54,9 +54,11 @@ TruthsC == {[BaseG EXCEPT !.cues = <<[s |-> tp[1], e |-> tp[2], id |-> id, notes
                      \* two lines, the second spoken by nobody or by the same voice as the first
                      \cup {<<Line1(v, <<Run1(1, s1, 0)>>), Line1(v2, <<Run1(2, s2, 0)>>)>> : v \in {0, 1}, v2 \in {0, 1}, s1 \in StacksSmall, s2 \in StacksSmall}}
 
-TruthsP == {[BaseG EXCEPT !.cues = <<[SimpleCue(0, 1000) EXCEPT !.id = i1, !.notes = n1, !.lines = <<Line1(0, <<Run1(1, s1, 0)>>)>>],
+TruthsP == {[BaseG EXCEPT !.cues = <<[SimpleCue(0, 1000) EXCEPT !.id = i1, !.notes = n1, !.set = st1, !.lines = <<Line1(0, <<Run1(1, s1, 0)>>)>>],
                                      [SimpleCue(2000, 3000) EXCEPT !.id = i2, !.notes = n2, !.lines = <<Line1(v2, <<Run1(2, s2, 0)>>)>>]>>] :
-              i1 \in {0, 5}, i2 \in {0, 9}, n1 \in {<<>>, <<1>>}, n2 \in {<<>>, <<2>>}, s1 \in StacksSmall, s2 \in StacksSmall, v2 \in {0, 1}}
+              \* (the first cue with or without settings: what is pending for the second cue must not depend on it)
+              i1 \in {0, 5}, i2 \in {0, 9}, n1 \in {<<>>, <<1>>}, n2 \in {<<>>, <<2>>}, s1 \in StacksSmall, s2 \in StacksSmall, v2 \in {0, 1},
+              st1 \in {NoSet, [align |-> 2, line |-> 2, position |-> 2, size |-> 1, vertical |-> 1]}}
 
 \* N: nesting - tags of the same name inside one another (class spans in class spans, i in b in i), runs that leave
 \* the inner span only, up to three runs on a line
